@@ -24,6 +24,7 @@ THEOREMS = [
     "Mesa.Cont.C10_exp_remove_lifecycle",
     "Mesa.Cont.C10_exp_agent_api",
     "Mesa.Cont.C10_exp_raw_view_write",
+    "Mesa.Cont.C10_exp_vector_lengths",
     "Mesa.Cont.C10_exp_capacity_names_the_array",
     "Mesa.Cont.C10_exp_kept_view_write",
     "Mesa.Cont.C10_exp_kept_view_read",
@@ -78,7 +79,7 @@ ASSUMPTIONS = [
 ]
 RULE = ("random histories over both classes (50/50; 10% from the rejecting-call stream of C18): bounds with negative / non-unit origins and sizes 1/64 .. 15.6, torus on/off, "
         "experimental: 1-D .. 5-D (2-D and 3-D most often) and initial capacities {0,1,2,3,5,50,100}; 4-45 ops from place/new+set, move/set (12% per-axis out of bounds, "
-        "coincident and boundary positions), `position += v`, item writes into the returned position, raw writes through the `space.agent_positions` view, references to that view kept across later calls (read and written after re-slicing and re-allocation) and the ignored `pos` setter (experimental), remove, every agent method on removed agent objects, pos, agents, radius / k-nearest (k in 0..n+1, often n) / neighbour queries incl. on the "
+        "coincident and boundary positions), `position += v`, item writes into the returned position, raw writes through the `space.agent_positions` view, references to that view kept across later calls (read and written after re-slicing and re-allocation), the ignored `pos` setter, vectors with one coordinate or with nd-1 / nd+1 coordinates in every call that takes a point (2 % of the ops of spaces with nd >= 2) (experimental), remove, every agent method on removed agent objects, pos, agents, radius / k-nearest (k in 0..n+1, often n) / neighbour queries incl. on the "
         "empty space and right after a cached read + move, distances and heading/difference vectors (30% of the toroidal ones exactly half the size apart: the tie of the heading rule); radii aimed at exact agent distances; "
         "non-trivial = >= 2 agents in the space at some point, a mutation after the first query and a query answer naming an agent; "
         "distinct = distinct op-line sequences (sha1)")
@@ -152,6 +153,11 @@ def tags(sc, obs):
                 yield "branch:write-through-agent_positions-view"
             if w[0] == "poke" and o == "ok":
                 yield "branch:write-into-returned-position"
+            nc = {"set": len(w) - 2, "iadd": len(w) - 2, "raw": len(w) - 2, "radius": len(w) - 2, "knn": len(w) - 2, "inb": len(w) - 1,
+                  "correct": len(w) - 1, "dists": (w.index(":") if ":" in w else len(w)) - 1,
+                  "diffs": (w.index(":") if ":" in w else len(w)) - 1}.get(w[0])
+            if nc is not None and nc != (len(w0) - 5) // 2:
+                yield "branch:vector-of-wrong-length:" + ("broadcast" if o.startswith("ok") else o.split()[1])
             if w[0] == "new" and o == "ok" and cap <= len(live):
                 cap += max(int(round(0.2 * (len(live) + 1))), 1)
                 reallocs += 1
